@@ -92,3 +92,79 @@ From BB Require Gen.Effects Proofs.Effects Proofs.EffectsOk.
 Theorem C09_assemble_is_a_function_of_its_inputs : Proofs.Effects.summary_ok Gen.Effects.summary = true.
 Proof. exact Proofs.EffectsOk.summary_ok_holds. Qed.
 Print Assumptions C09_assemble_is_a_function_of_its_inputs.
+
+(* ==== C09 at the level of the TEXT of a file ==========================================================================================
+   Proofs/Program.v assemble_text: lines of one file -> lexer model -> parser model -> the 16 passes (Proofs/TextLayout.v). *)
+From BB Require Model.Lexer Model.Parser Proofs.Program Proofs.TextGroups Proofs.TextTrack Proofs.TextLayout.
+Import Model.Lexer Model.Parser Proofs.Program Proofs.TextGroups Proofs.TextTrack Proofs.TextLayout.
+Open Scope list_scope.
+
+(* for a text that assembles (either mode, any initial constants / labels): the chunks are the concatenation, in text order, of ONE
+   group per line; group i stands at the total length of the groups in front of it (groups_at) and is what line_layout allows for
+   line i at that offset *)
+Theorem C09_text_in_order :
+  forall ls c0 l0 cmp r,
+    assemble_text ls c0 l0 cmp = TDone r ->
+    exists gs, r_chunks r = List.concat gs /\ groups_at csz (line_layout r) 0 ls gs.
+Proof. exact text_concat. Qed.
+Print Assumptions C09_text_in_order.
+
+(* line_layout, spelled out: every chunk of the group carries the line it came from; a blank / comment-only line, a label line and a
+   constant definition contribute nothing (the label is bound to the offset the line stands at); `align N` (N >= 1 is enforced by the
+   parser) contributes exactly (N - p mod N) mod N zero bytes -- no chunk at all when that is 0; a data line (string, bytes .. longlongs,
+   pack, db .. dd) contributes one chunk of the size its item announces; an instruction or pseudo-instruction line contributes chunks
+   of that line only, each 2 or 4 bytes long (what they are when the line is a transfer to a label: the C03_text theorems) *)
+Theorem C09_line_layout :
+  forall r p lt g,
+    line_layout r p lt g <->
+    (Forall (fun c : line * chunk => fst c = fst lt) g /\
+     match front_line (fst lt) (snd lt) with
+     | FOk None => g = []
+     | FOk (Some it) =>
+         match it with
+         | ILabel n => g = [] /\ assoc_str n (r_labels r) = Some p
+         | IConst _ _ => g = []
+         | IAlign n => 1 <= n /\ g = (let pad := (n - p mod n) mod n in if Z.eqb pad 0 then [] else [(fst lt, CZeros pad)])
+         | IInstr _ _ _ _ | IPseudo _ _ _ => Forall (fun c : line * chunk => chunk_len (snd c) = 2 \/ chunk_len (snd c) = 4) g
+         | _ => exists c, g = [(fst lt, c)] /\ chunk_len c = isz it
+         end
+     | _ => False
+     end).
+Proof. intros. reflexivity. Qed.
+Print Assumptions C09_line_layout.
+
+(* the same as a relation (one group after the other), used to speak about a line in the middle of the text *)
+Theorem C09_text_layout :
+  forall ls c0 l0 cmp r, assemble_text ls c0 l0 cmp = TDone r -> text_layout r 0 ls (r_chunks r).
+Proof. exact text_in_order. Qed.
+Print Assumptions C09_text_layout.
+
+(* an `align N` line of the text: with p = the total length of the chunks of the lines in front of it, it contributes
+   pad = (N - p mod N) mod N zero bytes, 0 <= pad < N, p + pad is a multiple of N, and no smaller non-negative count reaches one *)
+Theorem C09_text_align :
+  forall ls c0 l0 cmp r,
+    assemble_text ls c0 l0 cmp = TDone r ->
+    forall ls1 l text ls2 n, ls = ls1 ++ (l, text) :: ls2 -> front_line l text = FOk (Some (IAlign n)) ->
+      exists cs1 cs2, let p := tot csz cs1 in let pad := (n - p mod n) mod n in
+        1 <= n /\ r_chunks r = cs1 ++ (if Z.eqb pad 0 then [] else [(l, CZeros pad)]) ++ cs2 /\
+        text_layout r 0 ls1 cs1 /\ text_layout r (p + pad) ls2 cs2 /\
+        0 <= pad < n /\ (p + pad) mod n = 0 /\ (forall k, 0 <= k -> (p + k) mod n = 0 -> pad <= k).
+Proof. exact text_align. Qed.
+Print Assumptions C09_text_align.
+
+(* which lines are `align N` lines *)
+Theorem C09_align_lines :
+  forall l text t0 a n, lex_tokens text = Some [t0; a] -> lower t0 = "align"%string -> py_int_lit a = Some n -> 1 <= n ->
+    front_line l text = FOk (Some (IAlign n)).
+Proof. exact align_line. Qed.
+Print Assumptions C09_align_lines.
+
+(* non-vacuity: start: / beq x8, zero, done / (blank) / align 8 / dw 0x12345678 / K = 5 / done: / jal x1, start / bnez x9, start / j done
+   assembles in both modes; the align line stands at 4 (resp. 2 with compression) and contributes 4 (resp. 6) zero bytes *)
+Example C09_text_example :
+  (forall cmp, assemble_text ex_text [] [] cmp = TDone (ex_result cmp)) /\
+  ex_text = firstn 3 ex_text ++ (exT 4, "    align 8")%string :: skipn 4 ex_text /\
+  front_line (exT 4) "    align 8" = FOk (Some (IAlign 8)) /\
+  r_chunks (ex_result false) = [(exT 2, CBytes [99; 6; 4; 0])] ++ [(exT 4, CZeros ((8 - 4 mod 8) mod 8))] ++ skipn 2 (r_chunks (ex_result false)) /\
+  r_chunks (ex_result true) = [(exT 2, CBytes [17; 196])] ++ [(exT 4, CZeros ((8 - 2 mod 8) mod 8))] ++ skipn 2 (r_chunks (ex_result true)).
+Proof. split. exact ex_text_runs. repeat split; reflexivity. Qed.
